@@ -314,7 +314,20 @@ func closeRace(rounds int) string {
 func monitorsOf(line string) string {
 	var out []string
 	for _, w := range strings.Fields(line) {
-		for _, k := range []string{"maxconns=", "orphans=", "closedconns=", "afterclose=", "leaked=", "stack=", "stalled="} {
+		for _, k := range []string{"maxconns=", "orphans=", "closedconns=", "hostconns=", "afterclose=", "leaked=", "stack=", "stalled=", "lateadd=", "lateopen="} {
+			if strings.HasPrefix(w, k) {
+				out = append(out, w)
+			}
+		}
+	}
+	return strings.Join(out, " ")
+}
+
+// debMonitorsOf: the observation part of a debobs line.
+func debMonitorsOf(line string) string {
+	var out []string
+	for _, w := range strings.Fields(line) {
+		for _, k := range []string{"waiters=", "stranded=", "late=", "latestranded=", "stopret=", "exited="} {
 			if strings.HasPrefix(w, k) {
 				out = append(out, w)
 			}
@@ -333,8 +346,47 @@ func exec(op string) string {
 	atomic.StoreInt64(&tieStalls, 0)
 	label := fmt.Sprintf("r%d", replayN)
 	switch w[0] {
-	case "poolobs", "debrace", "sessclose":
+	case "poolobs", "debrace", "sessclose", "debwait":
 		return "accept"
+	case "deb":
+		if len(w) < 2 || w[1] != ":" {
+			return "bad-op"
+		}
+		_, impl, _ := runDeb(label, append([]string{}, w[2:]...), nil, 0)
+		return impl
+	case "debobs":
+		for _, x := range w {
+			if strings.HasPrefix(x, "sched=") {
+				var acts []string
+				if x != "sched=-" {
+					acts = strings.Split(strings.TrimPrefix(x, "sched="), ",")
+				}
+				_, _, fresh := runDeb(label, append([]string{}, acts...), nil, 0)
+				if debMonitorsOf(fresh) == debMonitorsOf(op) {
+					return "accept"
+				}
+				return "observed-now:" + strings.ReplaceAll(debMonitorsOf(fresh), " ", ",")
+			}
+		}
+		return "bad-op"
+	case "sessref":
+		pend, parked := -1, -1
+		for _, x := range w {
+			if strings.HasPrefix(x, "pending=") {
+				pend, _ = strconv.Atoi(strings.TrimPrefix(x, "pending="))
+			}
+			if strings.HasPrefix(x, "parked=") {
+				parked, _ = strconv.Atoi(strings.TrimPrefix(x, "parked="))
+			}
+		}
+		if pend < 0 || parked < 0 {
+			return "bad-op"
+		}
+		fresh, _ := runSessRef(label, pend, parked == 1)
+		if fresh == op {
+			return "accept"
+		}
+		return "observed-now:" + strings.ReplaceAll(fresh, " ", ",")
 	case "model", "hsmodel", "pipemodel":
 		return "(model only)"
 	case "pipe":
@@ -354,6 +406,9 @@ func exec(op string) string {
 			if strings.HasPrefix(x, "sched=bseed:") {
 				bs, _ := strconv.ParseUint(strings.Split(strings.TrimPrefix(x, "sched=bseed:"), ",")[0], 10, 64)
 				fresh = runPipeB(label, bs)
+			} else if strings.HasPrefix(x, "sched=cseed:") {
+				cs, _ := strconv.ParseUint(strings.Split(strings.TrimPrefix(x, "sched=cseed:"), ",")[0], 10, 64)
+				fresh = runPipeC(label, cs)
 			} else if strings.HasPrefix(x, "sched=") {
 				cfg, ok := parsePipeCfg(w[1:])
 				if !ok {
@@ -474,10 +529,10 @@ func main() {
 	out.Case(op, "accept", "sessclose/race", true)
 	lap("sessclose")
 	// 4. the connect pipeline: conducted schedules (model-predicted) and scripted-fate scenarios (monitors)
-	nA, nB := 200*mult, 48*mult
+	nA, nB, nC := 200*mult, 48*mult, 80*mult
 	type pres struct{ op, impl, obs string }
-	pr := make([]pres, nA+nB)
-	aseeds := make([]uint64, nA+nB)
+	pr := make([]pres, nA+nB+nC)
+	aseeds := make([]uint64, nA+nB+nC)
 	for i := range aseeds {
 		aseeds[i] = r.U64()
 	}
@@ -497,8 +552,10 @@ func main() {
 				cfg := genPipeCfg(ar)
 				op, impl, obs := runPipe(fmt.Sprintf("a%d", i), cfg, nil, genChooser(ar, cfg), 14+ar.Intn(14))
 				pr[i] = pres{op, impl, obs}
-			} else {
+			} else if i < nA+nB {
 				pr[i] = pres{obs: runPipeB(fmt.Sprintf("b%d", i), aseeds[i]%1000000007)}
+			} else {
+				pr[i] = pres{obs: runPipeC(fmt.Sprintf("c%d", i), aseeds[i]%1000000007)}
 			}
 		}(i)
 	}
@@ -516,12 +573,56 @@ func main() {
 				w := strings.Fields(pr[i].op)
 				out.Case(pr[i].op, pr[i].impl, "pipe/"+w[1]+"/"+w[2], true)
 			}
-			out.Case(pr[i].obs, "accept", "pipeobs/A", true)
-		} else {
+			cls := "pipeobs/A"
+			if !strings.Contains(pr[i].obs, " lateadd=0 ") {
+				cls = "pipeobs/A/addHost-inside-Session.Close(KF-C17-3)"
+			}
+			out.Case(pr[i].obs, "accept", cls, true)
+		} else if i < nA+nB {
 			out.Case(pr[i].obs, "accept", "pipeobs/B", true)
+		} else {
+			cls := "pipeobs/C"
+			if !strings.Contains(pr[i].obs, " lateadd=0 ") {
+				cls = "pipeobs/C/addHost-inside-Session.Close(KF-C17-3)"
+			}
+			out.Case(pr[i].obs, "accept", cls, true)
 		}
 	}
 	lap("pipeline")
+	phases["kindC_slowest_ms"] = atomic.LoadInt64(&slowestC)
+	phases["kindC_park_unstable"] = atomic.LoadInt64(&parkUnstable)
+	// 6. the refreshDebouncer with pending waiters: conducted schedules, racing rounds, Session.refreshRing callers
+	// pending across Session.Close
+	extra := map[string]int{}
+	nD := 300 * mult
+	for i := 0; i < nD && atomic.LoadInt64(&failures) < 2; i++ {
+		dr := vh.NewRng(r.U64())
+		op, impl, obs := runDeb(fmt.Sprintf("d%d", i), nil, dr, 4+dr.Intn(9))
+		cls := "deb/early"
+		if !strings.Contains(obs, " late=0 ") {
+			cls = "deb/late-refreshNow(KF-C17-2)"
+		}
+		out.Case(op, impl, cls, true)
+		out.Case(obs, "accept", "debobs", true)
+	}
+	{
+		line, st := debRaceRounds("dw", 400*mult, vh.NewRng(r.U64()))
+		for k, v := range st {
+			extra[k] += v
+		}
+		out.Case(line, "accept", "debwait", true)
+	}
+	for i := 0; i < 24*mult && atomic.LoadInt64(&failures) < 2; i++ {
+		pend, parked := r.Intn(4), i%4 != 3
+		line, late := runSessRef(fmt.Sprintf("sr%d", i), pend, parked)
+		if strings.HasPrefix(line, "fatal") {
+			fmt.Fprintln(os.Stderr, line)
+			os.Exit(3)
+		}
+		extra["sessref/raced-callers-registered-after-the-flusher-returned(KF-C17-2)"] += late
+		out.Case(line, "accept", fmt.Sprintf("sessref/parked%d/pending%d", b2i(parked), pend), true)
+	}
+	lap("debwaiters")
 	// 1. debouncer stop races (the defect repaired by the fix commit must not come back). Run LAST: each round
 	// leaves a goroutine parked on a listener nobody serves any more (refreshNow after stop), and thousands of
 	// parked goroutines make every goroutine profile of the pipeline monitors slow.
@@ -540,5 +641,5 @@ func main() {
 	out.Case("hsmodel code wRet wSend cRet rEnd", "r=done w=done c=ret cancelled=1 buf=0", "model", true)
 	out.Case("hsmodel buf ctxFire cLeave cRet wRet wSend rErr", "r=send w=done c=ret cancelled=1 buf=1", "model", true)
 	out.Case("hsmodel buf ctxFire cLeave cRet wRet wSend rErr rSend", "stuck", "model", true)
-	out.Close(map[string]interface{}{"harness_phase_wall": phases})
+	out.Close(map[string]interface{}{"harness_phase_wall": phases, "excluded_class_counts": extra})
 }
